@@ -83,7 +83,13 @@ RULE = ('rotation cases = (ns, we, dt) pairs: gen.record classes, amplitudes 1e-
         '`values` of a member; silent (all-zero) master / member / rotation component; rotation angles next to the quadrants '
         '(90k +- 1e-9, +- 1e-13, +- 1 ulp), +-3600, 5e-324, 1e-300, -1e-17; copy.copy (then only rebinding operations) / deepcopy / '
         'pickle of warm components read, used as components and changed before / after the original; components of unequal '
-        'length or time step (refused: components unchanged); f(A); f(B); f(A) with B of another length.')
+        'length or time step (refused: components unchanged); f(A); f(B); f(A) with B of another length. Round 4 (wave 8): clusters '
+        'whose records are SHORT relative to the search window, steps < npts < 2*steps+2 (default steps=10: 11..21 samples; steps '
+        '1..15, 25, 40), exact lags up to +-(steps-1) in both directions with 60% of them >= npts//2, the same 141 (size, master, '
+        'sign) patterns, modes exact / history (8 x 141 cases quick, 120 x 141 thorough); same_start windows with the documented '
+        'sentinel end=-1 ("to the end of the record": default start, start=0, start at a sample time, the last sample but one, '
+        'random start; -1 as int / float / np.int64 / np.float64) in 14% of all same_start calls of every mode; the defaults of '
+        'get_section_average (no arguments, start=0, end=-1, positional (0, -1, False), module function) read on the members.')
 ASSUMPTIONS = [
     'NaN-free real records; both components have the same length and dt',
     '|theta| <= 3600 degrees (the degree->radian rounding stays far below the 1e-12 relative allowance); a theta handed over '
@@ -100,6 +106,15 @@ ASSUMPTIONS = [
     'not from the property statement',
     'same_start is judged for windows 0 <= start <= end <= (n-1)*dt; the section average is whatever the public '
     'get_section_average(start, end) returns',
+    'round 4: the sentinel end = -1 (default of get_section_average; time_indices passes it on as the slice end) is a window "from '
+    'start to the end of the record", judged for 0 <= start <= (n-2)*dt by the same read-back clause and, when start is a sample '
+    'time, by means computed by the oracle from the samples under both readings of "to the end" (without the last sample, as the '
+    'source slices values[s:-1], or with it - the docstrings do not say): one reading must equalise every signal with the master. '
+    'The FLOAT form -1.0 of the sentinel (docstring: int or float) raised TypeError before fix F44 of eqsig; judged like the int form',
+    'round 4: records short relative to the search window (steps < npts < 2*steps+2) have no sample inside the overlap of every '
+    'candidate lag; there the lag is called identifiable when the records coincide bit-for-bit at exactly one lag |L| < steps and at '
+    'every other candidate EVERY aligned sample pair differs (1e-150 < |d| < 1e150), so that any residual search over any non-empty '
+    'part of the overlaps must select L; npts <= steps (empty residual window) stays outside the domain',
     'compute_rotated with points = 1 returns the single angle -offset (numpy linspace convention); points < 1 and float32 '
     'offsets are not driven',
     'tolerances are local: rotation per sample (|ns_i|+|we_i|), the signed-sample measure at its own sample, section '
@@ -186,6 +201,11 @@ MIN_EVALS = {
         'section-average.signal-unchanged': 12000,
         'same_start.master-unchanged(master re-assigned after construction)': 650,
         'time_match.master-unchanged(master re-assigned after construction)': 600,
+        # round 4
+        'same_start.section-average(end=-1: to the end of the record)==master': 700,
+        'section-average(end=-1)==mean(samples from start to the end of the record)': 4500,
+        'time_match.lag-removed(short record, |L| >= npts//2)': 750,
+        'time_match.lag-removed(short record: npts < 2*steps+2)': 2200,
     },
     'thorough': {
         'cluster.caller-arrays-unchanged': 21000,
@@ -240,6 +260,11 @@ MIN_EVALS = {
         'section-average(index=True)==mean(samples[start:end])': 210000,
         'section-average.signal-unchanged': 210000,
         'time_match.master-unchanged(master re-assigned after construction)': 11000,
+        # round 4
+        'same_start.section-average(end=-1: to the end of the record)==master': 12000,
+        'section-average(end=-1)==mean(samples from start to the end of the record)': 75000,
+        'time_match.lag-removed(short record, |L| >= npts//2)': 11000,
+        'time_match.lag-removed(short record: npts < 2*steps+2)': 32000,
     },
 }
 EXHAUSTIVE = {'quick': 'every (cluster size 2..4, master index, lag-sign pattern in {0,+,-}^(size-1)) = 141 patterns, each '
@@ -2105,12 +2130,9 @@ def _run_ops(eqsig, ctx, case, c, ops, judged=True):
                 if judged:
                     ctx.ok('%s.returns(no-exception)' % name)
         except Exception as e:
-            if name == 'same_start' and isinstance(e, TypeError) and isinstance(op[1].get('end'), (float, np.floating)) \
-                    and op[1].get('end') == -1:
-                # round 4, undecided: the sentinel handed over as a FLOAT (-1.0 == -1) is recognised by time_indices and then used
-                # as a slice index -> TypeError. Routed here until ruled (docstring: "end: int or float"); the call changes nothing
-                ctx.observe('pending-finding: same_start(end=-1.0) float form of the end sentinel raises TypeError')
-                continue
+            # (round 4: the sentinel handed over as a FLOAT, -1.0 == -1, was recognised by time_indices and then used as a slice
+            # index -> TypeError; routed to an observation until it was ruled a genuine defect - docstring "end: int or float" -
+            # and repaired in eqsig, fix F44; it is judged like any other exception now)
             clause = '%s.returns(no-exception)' % name if not name.startswith('sig.') else 'cluster.history-op(no-exception)'
             ctx.exception(clause, dict(case, failing={'op': [o if not isinstance(o, np.ndarray) else 'array' for o in op]}), e)
             return False
